@@ -32,7 +32,8 @@ class Ctx:
         self.t0 = time.time()
         base = os.environ.get("VERIF_SCRATCH") or tempfile.gettempdir()
         self.scratch = tempfile.mkdtemp(prefix="spgverif-%s-" % pid, dir=base)
-        atexit.register(lambda: shutil.rmtree(self.scratch, ignore_errors=True))
+        if not os.environ.get("VERIF_KEEP"):   # development: keep the scratch directory (traces, drivers) for inspection
+            atexit.register(lambda: shutil.rmtree(self.scratch, ignore_errors=True))
         self.states = 0
         self.transitions = 0
         self.traces = 0
